@@ -163,7 +163,7 @@ def run(ck, tier):
     if lp:
         l = lp[0]
         rd = [r for r in s.reads if r.loop == l.lid]
-        var = Poly.atom('$' + l.var)
+        var = Poly.atom('$' + (l.var or '?'))
         idr = [r for r in rd if r.fmt == 'B' and r.off == var]
         lnr = [r for r in rd if r.fmt == 'B' and r.off == var + Poly.const(1)]
         if idr and lnr:
